@@ -8,14 +8,17 @@ ID="$1"; BIN="$2"; OUT="$3"; rc="$4"
 # exit code 97: vcore's monitor found a case that did not return within the limit the check set with
 # hang_is_violation (properties that promise "never blocks"). Replay it alone: a violation only if it hangs again.
 if [ "$rc" -eq 97 ] && grep -q "^HUNG-WHILE " "$OUT"; then
-  cand=$(grep "^HUNG-WHILE " "$OUT" | head -1 | sed 's/.* replay=//')
-  timeout -k 10 1200 "$BIN" replay "$cand" >"$OUT.replay" 2>&1; rrc=$?
-  if [ $rrc -eq 1 ] || { [ $rrc -ge 129 ] && [ $rrc -ne 137 ]; }; then
-    echo "VIOLATION property=$ID replay=$cand"
-    echo "  reason=the case never returns (the code under test blocks for ever); reproduced by replaying this case alone"
-    exit 1
-  fi
-  echo "INCONCLUSIVE: a case of $ID exceeded its time limit once but returned when replayed alone ($cand)" >&2
+  first=""
+  while read -r cand; do
+    [ -z "$first" ] && first="$cand"
+    timeout -k 10 1200 "$BIN" replay "$cand" >"$OUT.replay" 2>&1; rrc=$?
+    if [ $rrc -eq 1 ] || { [ $rrc -ge 129 ] && [ $rrc -ne 137 ]; }; then
+      echo "VIOLATION property=$ID replay=$cand"
+      echo "  reason=the case never returns (the code under test blocks for ever); reproduced by replaying this case alone"
+      exit 1
+    fi
+  done < <(grep "^HUNG-WHILE " "$OUT" | sed 's/.* replay=//' | awk '!seen[$0]++' | head -8)
+  echo "INCONCLUSIVE: a case of $ID exceeded its time limit but returned when replayed alone ($first)" >&2
   exit 2
 fi
 [ "$rc" -ge 129 ] && [ "$rc" -ne 137 ] && grep -q "^ABORTED-WHILE " "$OUT" || exit 0
